@@ -264,7 +264,7 @@ def body(chk):
     for v in r.violated:
         chk.violation(f"model:{v}", f"TLC: {v} violated in the ImageIO model", {"tlc": r.out[-3000:]})
     cases = []
-    big = [10**6, 10**12, sys.maxsize]
+    big = [10**6, 10**12, sys.maxsize, sys.maxsize + 1, 2**63 + 12345, 2**64 - 1, 2**64, 10**30]
     shapes = [("1.5", [("HH", None, 12, 3)]), ("1.1", [("HH", "F1", 7, 2), ("HH", "F2", 5, 2)]),
               ("3.1", [("HH", None, 1, 4), ("HV", None, 9, 1), ("VV", None, 4, 4)])]
     if chk.tier == "thorough":
